@@ -245,9 +245,12 @@ def check_translate(fx, R, gq, dim):
         for s in body:
             if s['k'] == 'Decl':
                 for v in s['vars']:
-                    if v['t'].get('ref') and v.get('init') is not None:
-                        val = C.ev(v['init'])
-                        if isinstance(val, sp.Symbol):
+                    if v.get('init') is not None and (v['t'].get('ref') or v['t'].get('c') == 'int'):
+                        try:
+                            val = C.ev(v['init'])
+                        except sym.Unsupported:
+                            continue
+                        if isinstance(val, sp.Symbol) or (isinstance(val, sp.Basic) and not v['t'].get('ref')):
                             C.st.locals[v['id']] = val
             elif s['k'] == 'If':
                 c = C.ev(s['c'])
